@@ -177,6 +177,12 @@ func buildWorld(class, mode string) (*W, error) {
 	dTop := world.Dir("dTop", "top", ssTop.Ref)
 	m = add(dTop, "directory", "directory")
 	m.fileName, m.children = "top", []string{"dSub", "f2"}
+	// an empty directory (static-set without members): count / contains constraints on nothing
+	ssEmpty := world.StaticSet("ssEmpty")
+	add(ssEmpty, "static-set", "static-set")
+	dEmpty := world.Dir("dEmpty", "empty", ssEmpty.Ref)
+	m = add(dEmpty, "directory", "directory")
+	m.fileName = "empty"
 
 	for i := 1; i <= 6; i++ {
 		n := fmt.Sprintf("p%d", i)
